@@ -442,6 +442,10 @@ pub fn run(run: &Arc<Run>) {
     run.par(nmax as u64 + 1, |i, l| judge_n(nmax - i as usize, &levels, seed, !quick && (nmax - i as usize) <= 1000, l));
     let ne = run.cfg.by(3_000u64, 60_000);
     run.par(ne, |i, l| elem_case(seed, i, quick, l));
+    if !quick {
+        // sanitizer lane: the ArrayVec path of ci_max_size under Miri
+        crate::props::miri_lane::under_miri(run, "c03", None);
+    }
     run.require(&[
         "ranks judged",
         "bracketing judged",
